@@ -26,12 +26,14 @@ GUARD = "MORFUSE_VERIF"
 ASAN_ENV = {"ASAN_OPTIONS": "detect_leaks=0:abort_on_error=0:allocator_may_return_null=1",
             "UBSAN_OPTIONS": "print_stacktrace=1:halt_on_error=1"}
 
+# -DNDEBUG as in the project's own RelWithDebInfo build (asserts off: the properties are about
+# the behaviour of the released library)
 VARIANTS = {
-    "plain": ["-O1", "-g"],
-    "asan": ["-O1", "-g", "-fsanitize=address,undefined", "-fno-sanitize-recover=all",
+    "plain": ["-O1", "-g", "-DNDEBUG"],
+    "asan": ["-O1", "-g", "-DNDEBUG", "-fsanitize=address,undefined", "-fno-sanitize-recover=all",
              "-fno-sanitize=signed-integer-overflow",   # string/event hash functions wrap on purpose
              "-fno-omit-frame-pointer"],
-    "tsan": ["-O1", "-g", "-fsanitize=thread"],
+    "tsan": ["-O1", "-g", "-DNDEBUG", "-fsanitize=thread"],
 }
 
 
@@ -359,14 +361,15 @@ def proof_stage(res, cid, extra_targets=(), dirs=None):
         except OSError:
             pass
     bad = coq_hygiene(dirs or ["Base", cid])
-    res.cov["obligations"] = len(props["theorems"])
-    res.cov["discharged"] = len(props["theorems"]) if (ok and props["ok"] and not bad) else 0
-    res.cov["theorems"] = props["theorems"]
-    res.cov["print_assumptions"] = props.get("assumptions", {})
-    res.cov["hygiene_violations"] = bad
-    res.cov["checker_cmd"] = "make -C coq %s && coqc -Q . Morfuse %s/Properties.v (Print Assumptions under every theorem)" % (" ".join(targets), cid)
+    res.cov["obligations"] += len(props["theorems"])
+    res.cov["discharged"] += len(props["theorems"]) if (ok and props["ok"] and not bad) else 0
+    res.cov.setdefault("theorems", []).extend(props["theorems"])
+    res.cov.setdefault("print_assumptions", {}).update(props.get("assumptions", {}))
+    res.cov.setdefault("hygiene_violations", []).extend(bad)
+    cmd = "make -C coq %s && coqc -Q . Morfuse %s/Properties.v (Print Assumptions under every theorem)" % (" ".join(targets), cid)
+    res.cov["checker_cmd"] = (res.cov["checker_cmd"] + " ; " if res.cov["checker_cmd"] else "") + cmd
     res.cov["trusted_base"] = list(TRUSTED_BASE)
-    axioms = sorted({a for l in props.get("assumptions", {}).values() for a in l})
+    axioms = sorted(set(res.cov.get("axioms", [])) | {a for l in props.get("assumptions", {}).values() for a in l})
     res.cov["axioms"] = axioms
     return {"ok": ok and props["ok"] and not bad, "props": props, "build_log": log[-6000:], "hygiene": bad}
 
@@ -584,18 +587,19 @@ def _classify(hp, r):
 
 def history_check(res, hp, tier, seed, proof=True):
     cid = hp.cid
+    unit = getattr(hp, "unit", None) or cid
     res.assumptions += hp.assumptions()
     pst = {"ok": True}
     if proof:
-        pst = proof_stage(res, cid, extra_targets=["%s/Extract.vo" % cid], dirs=hp.coq_dirs)
-    drv = ocaml_driver(cid)
-    exe = build_harness(cid, hp.harness_sources, hp.variant, hp.use_lib, repo_deps=hp.repo_deps)
+        pst = proof_stage(res, unit, extra_targets=["%s/Extract.vo" % unit], dirs=hp.coq_dirs)
+    drv = ocaml_driver(unit)
+    exe = build_harness(unit, hp.harness_sources, hp.variant, hp.use_lib, repo_deps=hp.repo_deps)
     cases = hp.gen(tier, seed)
-    res.cov["evaluations"] = len(cases)
+    res.cov["evaluations"] += len(cases)
     origins = {}
     for c in cases:
         origins[c.origin] = origins.get(c.origin, 0) + 1
-    res.cov["input_distribution"] = {"by_origin": origins,
+    res.cov.setdefault("input_distribution", {})[unit] = {"by_origin": origins,
                                      "ops_total": sum(len(c.ops) for c in cases),
                                      "max_len": max([len(c.ops) for c in cases] or [0])}
     seen, nontriv, detail_mismatch, validated = set(), 0, 0, 0
@@ -619,11 +623,11 @@ def history_check(res, hp, tier, seed, proof=True):
                 bad.append((c, v))
         if len(bad) > 50:
             break
-    res.cov["traces_validated_against_impl"] = validated
-    res.cov["distinct_nontrivial"] = nontriv
-    res.cov["model_detail_mismatches"] = detail_mismatch
-    res.cov["disagreements_checked"] = len(bad)
-    res.cov["samples"] = [dict(c.to_json(), ops=c.ops[:40]) for c in cases[:2] + cases[-1:]]
+    res.cov["traces_validated_against_impl"] = res.cov.get("traces_validated_against_impl", 0) + validated
+    res.cov["distinct_nontrivial"] += nontriv
+    res.cov["model_detail_mismatches"] = res.cov.get("model_detail_mismatches", 0) + detail_mismatch
+    res.cov["disagreements_checked"] = res.cov.get("disagreements_checked", 0) + len(bad)
+    res.cov["samples"] += [dict(c.to_json(), unit=unit, ops=c.ops[:40]) for c in cases[:2] + cases[-1:]]
 
     # report: shrink each distinct kind once
     reported = set()
@@ -647,7 +651,7 @@ def history_check(res, hp, tier, seed, proof=True):
         cc = Case("r", c.header, ops, "shrunk from " + c.origin)
         rr = _run_pair(hp, drv, exe, [cc])["r"]
         vv = _classify(hp, rr) or v
-        record = {"property": cid, "kind": vv["kind"], "why": vv["why"], "header": c.header, "ops": ops,
+        record = {"property": cid, "unit": unit, "kind": vv["kind"], "why": vv["why"], "header": c.header, "ops": ops,
                   "origin": c.origin, "seed": seed, "signature": hp.signature(cc, rr, vv) if hasattr(hp, "signature") else vv["kind"],
                   "model_trace": rr.get("m_cmp"), "impl_trace": rr.get("i_cmp"),
                   "replay_cmd": "./check %s --replay <this file>" % cid}
@@ -659,12 +663,12 @@ def history_check(res, hp, tier, seed, proof=True):
             res.known_finding(km)
             continue
         if not vv["concrete"]:
-            record["broken"] = "correspondence model<->implementation for %s (see why); the specification monitor accepted the implementation's trace on every explored input" % cid
+            record["broken"] = "correspondence model<->implementation for %s (see why); the specification monitor accepted the implementation's trace on every explored input" % unit
         res.violation(record, no_input=not vv["concrete"])
     if proof and not pst["ok"]:
         # a proof obligation no longer checks; any concrete failing input was reported above
         if not any(not ni for _, ni in res.violations):
-            res.violation({"property": cid, "kind": "proof-broken", "broken": "Coq build of %s/Properties.vo" % cid,
+            res.violation({"property": cid, "unit": unit, "kind": "proof-broken", "broken": "Coq build of %s/Properties.vo" % unit,
                            "hygiene": pst.get("hygiene"), "log": pst.get("build_log", "")[-3000:] + str(pst.get("props", {}).get("log", ""))[-3000:]},
                           no_input=True)
     return pst
@@ -675,9 +679,10 @@ def history_replay(hp, path):
     if "ops" not in rec:
         print("replay file names a broken obligation, not an input: %s" % rec.get("broken"))
         return 1
-    ok, log = coq_make(["%s/Extract.vo" % hp.cid])
-    drv = ocaml_driver(hp.cid)
-    exe = build_harness(hp.cid, hp.harness_sources, hp.variant, hp.use_lib, repo_deps=hp.repo_deps)
+    unit = getattr(hp, "unit", None) or hp.cid
+    ok, log = coq_make(["%s/Extract.vo" % unit])
+    drv = ocaml_driver(unit)
+    exe = build_harness(unit, hp.harness_sources, hp.variant, hp.use_lib, repo_deps=hp.repo_deps)
     c = Case("r", rec["header"], rec["ops"], "replay")
     r = _run_pair(hp, drv, exe, [c])["r"]
     v = _classify(hp, r)
